@@ -213,6 +213,9 @@ func clientRequest(r *aerig.Rig, b backend, method, tok string, body []byte) *ae
 
 func clientRequestQ(r *aerig.Rig, b backend, method, tok, extra string, body []byte) *aerig.Response {
 	hdr := http.Header{"X-Client-Token": {tok}, "Content-Type": {"application/octet-stream"}}
+	// every request of every case carries the same trace and correlation ids (one trace spans many requests)
+	hdr.Set("X-Cloud-Trace-Context", "105445aa7843bc8bf206b12000100000/1;o=1")
+	hdr.Set("X-Request-Id", "105445aa7843bc8bf206b12000100000")
 	user := b.user
 	if user == "allUsers" {
 		user = "u9@example.com"
